@@ -132,6 +132,7 @@ func checkC14(e *Env, r *Report) {
 		mode   string
 		filter []string
 		fmtJ   bool
+		syslog bool
 	}
 	filters := [][]string{{}, {"p", "a"}, {"p", "a", "b"}, {"z", "z"}}
 	modes := []string{"default", "raw", "rules"}
@@ -140,7 +141,8 @@ func checkC14(e *Env, r *Report) {
 		if len(lg) > 2 && rng.Intn(len(logs)) > maxRuns {
 			continue
 		}
-		jobs = append(jobs, job{lg, modes[rng.Intn(3)], filters[rng.Intn(4)], rng.Intn(3) == 0})
+		f3 := rng.Intn(3)
+		jobs = append(jobs, job{lg, modes[rng.Intn(3)], filters[rng.Intn(4)], f3 == 0, f3 == 1})
 	}
 	// seeded longer logs beyond the exhaustive bound
 	menu := logs // reuse single lines of the enumerated logs as a menu
@@ -156,7 +158,8 @@ func checkC14(e *Env, r *Report) {
 			ln.ID = len(lg) + 1
 			lg = append(lg, ln)
 		}
-		jobs = append(jobs, job{lg, modes[rng.Intn(3)], filters[rng.Intn(4)], rng.Intn(3) == 0})
+		f3 := rng.Intn(3)
+		jobs = append(jobs, job{lg, modes[rng.Intn(3)], filters[rng.Intn(4)], f3 == 0, f3 == 1})
 	}
 	recs := make([]any, len(jobs))
 	dir := filepath.Join(e.Scratch, "logs")
@@ -174,6 +177,9 @@ func checkC14(e *Env, r *Report) {
 					b.Write(jb)
 					b.WriteString("\n")
 				}
+			} else if j.syslog && line != "" && ln.Cls != "foreign" && ln.Cls != "garbled" {
+				// the same record as the kernel ring buffer / syslog shows it
+				b.WriteString(fmt.Sprintf("Oct  1 12:00:%02d host kernel: [ %4d.%06d] audit: ", k%60, 1000+k, k) + strings.Replace(line, "type=AVC msg=audit(", "type=1400 audit(", 1) + "\n")
 			} else {
 				b.WriteString(line + "\n")
 			}
@@ -221,6 +227,8 @@ func checkC14(e *Env, r *Report) {
 		fmtName := "audit"
 		if j.fmtJ {
 			fmtName = "journald"
+		} else if j.syslog {
+			fmtName = "syslog"
 		}
 		recs[i] = map[string]any{"ev": "run", "id": fmt.Sprintf("%s|%s|%s|filter=%s", compactLog(j.log), fmtName, j.mode, strings.Join(j.filter, "")), "mode": j.mode, "filter": j.filter,
 			"input": j.log, "output": out, "exit": r1.Exit, "stable": stable}
